@@ -21,6 +21,8 @@ pub enum Event<'a> {
     /// call-site brackets around every `rewind_validation_to(index)` of the scheduler
     RewindCall { index: usize },
     RewindReturn { index: usize },
+    /// a worker claimed the validation of `txid` on the cursor (status lock not yet taken)
+    ValidationClaimed { txid: usize },
     /// emitted immediately after the cursor rewind took effect (no schedule point in between)
     Rewind { index: usize, ts: usize, previous: usize },
     Finality { txid: usize, unconfirmed_ts: usize, lower_ts: usize },
@@ -78,6 +80,7 @@ pub fn event(e: Event<'_>) {
         Event::ValidateStart { txid, incarnation } => 0x10_0000 + (*txid as u64) * 64 + *incarnation as u64,
         Event::RewindCall { index } => 0x11_0000 + *index as u64,
         Event::RewindReturn { index } => 0x12_0000 + *index as u64,
+        Event::ValidationClaimed { txid } => 0x13_0000 + *txid as u64,
         Event::Rewind { index, ts, previous } => 0x05_0000 + *index as u64 + ((*ts as u64) << 24) + ((*previous as u64) << 48),
         Event::Finality { txid, unconfirmed_ts, lower_ts } => {
             0x06_0000 + *txid as u64 + ((*unconfirmed_ts as u64) << 24) + ((*lower_ts as u64) << 44)
@@ -95,6 +98,13 @@ pub fn event(e: Event<'_>) {
         }
     };
     rt::mix(digest);
+    // which transaction is this task working on (read by transaction-targeted schedule strategies)
+    match &e {
+        Event::ExecStart { txid, incarnation } => rt::set_current_op(rt::OP_EXEC, *txid, *incarnation),
+        Event::ValidateStart { txid, incarnation } => rt::set_current_op(rt::OP_VALIDATE, *txid, *incarnation),
+        Event::ValidationClaimed { txid } => rt::set_current_op(rt::OP_CLAIM, *txid, 0),
+        _ => {}
+    }
     OBSERVER.with(|o| {
         if let Ok(mut guard) = o.try_borrow_mut()
             && let Some(observer) = guard.as_mut()
